@@ -22,6 +22,7 @@ def run_walks(ctx, kinds_wanted, ops_wanted, n_quick, n_thorough, regress_names=
     if (not ctx["proof"]["ok"]) and ctx["tier"] == "quick":
         n = n * 4
     reqs = []
+    k3 = []
     for i in range(n):
         prob, theme = ce.gen_problem(rng)
         v, steps = walk.walk(prob, rng, reqs, steps=14)
@@ -29,12 +30,20 @@ def run_walks(ctx, kinds_wanted, ops_wanted, n_quick, n_thorough, regress_names=
         for k, c in steps.items():
             report.count("steps", k, c)
         violations += [x for x in v if x["kind"] in kinds_wanted or x["kind"] == "hang"]
+        k3 += [x for x in v if x["kind"] == "K3"]
     sel = [(q, e, r) for q, e, r in reqs if r["op"] in ops_wanted]
     answers = nv.Model().ask([q for q, _, _ in sel])
     for (q, exp, replay), ans in zip(sel, answers):
         report.cov["evaluations"] += 1
         if ans != exp:
             corr.append(dict(replay, implementation=exp, model=ans))
+            if replay["op"] == "bc" and "fixpoint" in kinds_wanted:
+                # a pass after which re-executing no_sub_cycle fails is the known finding K3 only when the MODEL of the unchanged
+                # engine (which reproduces K3 faithfully) ends the pass the same way; here it does not
+                for x in k3:
+                    if all(x.get(k) == replay.get(k) for k in ("problem", "doms", "not_entailed", "triggered")):
+                        violations.append(dict(x, kind="fixpoint", detail=x["detail"] + " — and the model of the unchanged engine does not end this pass "
+                                                                                 "like that, so this is not the known finding K3: a wake-up was lost"))
         if replay["op"] == "bc":
             st = exp.split(" ")[0]
             report.count("pass_status", st)
